@@ -2,8 +2,8 @@ SPECIFICATION Spec
 CONSTANTS
   Others = {"a", "b", "c"}
   FinTargets = {"a", "b", "c", "j"}
-  MaxR = 2
-  MaxO = 2
+  MaxR = 3
+  MaxO = 1
   Emit = TRUE
 INVARIANT SettledInv
 INVARIANT EmitInv
